@@ -5,7 +5,7 @@ import miri as _miri
 
 PROPS = {}
 NOT_CLAIMED = {}
-HOOK_COMMITS = ["df4b594"]
+HOOK_COMMITS = ["df4b594", "648b1ab"]
 
 PROPS["C19"] = {
     "special": _miri.make("C19", ["stride=400"]),
